@@ -189,6 +189,62 @@ func c06RangeBody(fd *ast.FuncDecl) []string {
 	return out
 }
 
+// c06RangeBodyKinds: one short token per statement of the first `for … range` loop of fd:
+// "call:<callee>" (assignment from a call), "store:<map>" (assignment into an indexed expression),
+// "if:return" / "if:continue" / "if:break" / "if:other" (by the last statement of the if body),
+// "other".
+func c06RangeBodyKinds(fd *ast.FuncDecl) []string {
+	var out []string
+	done := false
+	if fd == nil || fd.Body == nil {
+		return out
+	}
+	ast.Inspect(fd.Body, func(n ast.Node) bool {
+		if done {
+			return false
+		}
+		rs, ok := n.(*ast.RangeStmt)
+		if !ok {
+			return true
+		}
+		done = true
+		for _, st := range rs.Body.List {
+			tok := "other"
+			switch x := st.(type) {
+			case *ast.AssignStmt:
+				if len(x.Lhs) >= 1 {
+					if ix, ok := x.Lhs[0].(*ast.IndexExpr); ok {
+						tok = "store:" + lastIdent(ix.X)
+						break
+					}
+				}
+				if len(x.Rhs) == 1 {
+					if ce, ok := x.Rhs[0].(*ast.CallExpr); ok {
+						tok = "call:" + exprName(ce.Fun)
+					}
+				}
+			case *ast.IfStmt:
+				tok = "if:other"
+				if k := len(x.Body.List); k > 0 {
+					switch l := x.Body.List[k-1].(type) {
+					case *ast.ReturnStmt:
+						tok = "if:return"
+					case *ast.BranchStmt:
+						tok = "if:" + l.Tok.String()
+					}
+				}
+			case *ast.ExprStmt:
+				if ce, ok := x.X.(*ast.CallExpr); ok {
+					tok = "call:" + exprName(ce.Fun)
+				}
+			}
+			out = append(out, tok)
+		}
+		return false
+	})
+	return out
+}
+
 func init() {
 	Register(Fact{Module: "C06", Gen: func(repo string) (string, error) {
 		_, cf, err := ParseFile(repo, "pkg/queue/constants.go")
@@ -298,7 +354,8 @@ func init() {
 		fmt.Fprintf(&sb, "def ackLock : String := %q\n", c06LockKind(ack))
 		fmt.Fprintf(&sb, "def setConsumedLock : String := %q\n", c06LockKind(FindFunc(cg, "consumerGroup", "SetConsumedSeq")))
 		fmt.Fprintf(&sb, "def setSeqLock : String := %q\n", c06LockKind(FindFunc(cg, "consumerGroup", "SetSeq")))
-		sb.WriteString("\ndef initConsumerGroupsLoop : List String := " + LeanStrList(c06RangeBody(FindFunc(fo, "fanOutQueue", "initConsumerGroups"))) + "\n")
+		sb.WriteString("\ndef initConsumerGroupsLoop : List String := " + LeanStrList(c06RangeBodyKinds(FindFunc(fo, "fanOutQueue", "initConsumerGroups"))) + "\n")
+		sb.WriteString("def fanOutSetAppendedLoop : List String := " + LeanStrList(c06RangeBodyKinds(FindFunc(fo, "fanOutQueue", "SetAppendedSeq"))) + "\n")
 		// critical sections: which calls run inside the lock a method opens first
 		goc := FindFunc(fo, "fanOutQueue", "GetOrCreateConsumerGroup")
 		fmt.Fprintf(&sb, "\ndef getOrCreateLock : String := %q\n", c06LockKind(goc))
